@@ -255,13 +255,18 @@ impl<'tcx> Dumper<'tcx> {
                     let pm = tcx.promoted_mir(uv.def);
                     if pidx.index() < pm.len() {
                         let mut srcs: Vec<String> = Vec::new();
+                        let mut aggs: Vec<String> = Vec::new();
                         for bbd in pm[pidx].basic_blocks.iter() {
                             for st in bbd.statements.iter() {
                                 if let StatementKind::Assign(b) = &st.kind {
                                     let mut ops: Vec<&Operand<'tcx>> = Vec::new();
                                     match &b.1 {
                                         Rvalue::Use(o, ..) => ops.push(o),
-                                        Rvalue::Aggregate(_, os) => {
+                                        Rvalue::Aggregate(k, os) => {
+                                            if let AggregateKind::Adt(adid, vidx, ..) = &**k {
+                                                let v = tcx.adt_def(*adid).variant(*vidx);
+                                                aggs.push(js(&format!("{}::{}", self.path(*adid), v.name)));
+                                            }
                                             for o in os.iter() {
                                                 ops.push(o);
                                             }
@@ -281,6 +286,7 @@ impl<'tcx> Dumper<'tcx> {
                             }
                         }
                         items.push(("psrc", jlist(&srcs)));
+                        items.push(("pagg", jlist(&aggs)));
                     }
                 }
             }
